@@ -28,8 +28,16 @@ import (
 // if nothing is stored under p, otherwise ANY stored packet under p whose version is the largest
 // stored under p (ndn.Store: "prefix = return the newest Data wire with the given prefix"); which
 // of several packets of that same newest version (e.g. its segments) is returned is left open. No
-// packet name of the universe is a prefix of another (as with objects: <obj>/<v>/<seg>), so the
-// question whether an exact hit outranks a newer descendant does not arise.
+// packet name of the main, boundary and look-alike universes is a prefix of another (as with
+// objects: <obj>/<v>/<seg>). The NESTED universe (mkNestedUniverse) is the opposite: a chain of
+// packet names each a proper prefix of the next, plus siblings, so that an interior node of the
+// MemoryStore tree / a key that is a byte prefix of other bolt keys holds a packet of its own.
+// There Get(p, prefix) with a packet stored AT p may return that packet (the exact hit: what
+// MemoryStore does) or any packet of the newest version under p (what BoltStore does): the
+// interface comment does not say which, both are accepted. Everything else is two-valued: an exact
+// Get returns what was last Put under exactly that name unless it was removed (by exact name, or by
+// a prefix Remove of that name or of a name it extends) - and removing ANOTHER name, in a prefix
+// relation or not, does not make it disappear.
 
 type sPkt struct {
 	name enc.Name
@@ -145,10 +153,17 @@ func runStores(rep *report.Reporter, thorough bool, deadline time.Time) map[stri
 	vb := enumStores(rep, mkBoundaryUniverse(), 3, 3, deadline)
 	// look-alike names (components that differ in type only): every history of depth <= 3
 	ty := enumStores(rep, mkTypedUniverse(), 3, 3, deadline)
+	// prefix-related packet names: every history of depth <= 3 (thorough: 4, transaction mode 3)
+	nd := 3
+	if thorough {
+		nd = 4
+	}
+	ne := enumStores(rep, mkNestedUniverse(), nd, 3, deadline)
 	cov := enumStores(rep, mkUniverse(thorough), 4, txDepth, deadline)
 	cov["version_boundaries"] = vb
 	cov["lookalike_names"] = ty
-	for _, c := range []map[string]any{vb, ty} {
+	cov["prefix_related_names"] = ne
+	for _, c := range []map[string]any{vb, ty, ne} {
 		if e, _ := c["exhaustive"].(bool); !e {
 			cov["exhaustive"] = false
 		}
@@ -227,6 +242,45 @@ func mkTypedUniverse() *sUniverse {
 	sortStrings(keys)
 	for _, k := range keys {
 		u.queries = append(u.queries, qset[k])
+	}
+	return u
+}
+
+// mkNestedUniverse: packet names in a prefix relation (a packet stored at an interior node):
+//
+//	/p  /p/x  /p/x/y  /p/x/y/z     a chain: each name a proper prefix of the next (versions 1, 2, 1, 3)
+//	/p/w                            a sibling of /p/x (version 0): /p then has two children
+//	/q  /q/v=1  /q/v=1/seg=0        object-like: a packet at the object name, at <obj>/<version> and a segment (versions 2, 1, 1)
+//
+// Operations: Put of each, Remove of each by exact name, Remove of each BY PREFIX and of the root;
+// queries: every packet name and the root, exact and by prefix. The newest version is never the
+// shortest name of its chain, so "exact hit" and "newest under the prefix" differ.
+func mkNestedUniverse() *sUniverse {
+	u := &sUniverse{}
+	type pv struct {
+		s   string
+		ver uint64
+	}
+	list := []pv{{"/p", 1}, {"/p/x", 2}, {"/p/x/y", 1}, {"/p/x/y/z", 3}, {"/p/w", 0}, {"/q", 2}, {"/q/v=1", 1}, {"/q/v=1/seg=0", 1}}
+	for _, p := range list {
+		n := mkName(p.s, 0)
+		if n.String() != p.s {
+			report.Fatal("nested universe: %s parses to %s", p.s, n)
+		}
+		pk := &sPkt{name: n, s: p.s, ver: p.ver}
+		u.pkts = append(u.pkts, pk)
+		u.ops = append(u.ops, sOp{label: "Put(" + pk.s + ")", put: pk})
+	}
+	for _, p := range u.pkts {
+		u.ops = append(u.ops, sOp{label: "Remove(" + p.s + ")", rem: p.name})
+	}
+	for _, p := range u.pkts {
+		u.ops = append(u.ops, sOp{label: "Remove(" + p.s + ",prefix)", rem: p.name, prefix: true})
+	}
+	u.ops = append(u.ops, sOp{label: "Remove(/,prefix)", rem: enc.Name{}, prefix: true})
+	u.queries = []enc.Name{{}}
+	for _, p := range u.pkts {
+		u.queries = append(u.queries, p.name)
 	}
 	return u
 }
@@ -348,6 +402,18 @@ func runStoreHistory(add func(report.Violation), u *sUniverse, hist []int, tx bo
 			for _, s := range stores {
 				var err error
 				if tx {
+					// transaction mode: the Put is preceded by a transaction that is ROLLED BACK and
+					// that had put a decoy (another wire, a larger version) under the same name: a
+					// rolled-back packet was never published and must never be served
+					if err = s.s.Begin(); err == nil {
+						err = s.s.Put(op.put.name, op.put.ver+1000, append([]byte("rolled-back:"), wire...))
+						if e2 := s.s.Rollback(); err == nil {
+							err = e2
+						}
+					}
+					if err != nil {
+						add(report.Violation{Clause: "C15.stores", Key: s.n + ": Begin/Put/Rollback returns an error", Detail: desc() + " :: " + err.Error(), Replay: map[string]any{"store_history": labels, "mode": mode}})
+					}
 					if err = s.s.Begin(); err == nil {
 						err = s.s.Put(op.put.name, op.put.ver, wire)
 						if e2 := s.s.Commit(); err == nil {
@@ -419,6 +485,11 @@ func runStoreHistory(add func(report.Violation), u *sUniverse, hist []int, tx bo
 				if len(vers) > 1 {
 					nontriv = true
 				}
+				// a packet stored AT the queried name (nested universe): the exact hit is a legal
+				// answer too, whatever newer packets lie below it
+				if r := ref[qs]; r != nil && r.ver != maxVer {
+					legal = append(legal, r.wire)
+				}
 			}
 			var got [2][]byte
 			// MemoryStore walks Go maps (random order per walk): when the answer could depend on the
@@ -476,6 +547,8 @@ func runStoreHistory(add func(report.Violation), u *sUniverse, hist []int, tx bo
 							}
 							if rm {
 								bad("C15.removed", s.n+": Get returns a removed (or overwritten) packet", what)
+							} else if bytes.HasPrefix(w, []byte("rolled-back:")) {
+								bad("C15.stores", s.n+": Get returns a packet whose transaction was rolled back", what)
 							} else {
 								bad("C15.stores", s.n+": Get returns a wire that is not stored", what)
 							}
